@@ -1132,6 +1132,10 @@ class Model:
             for _input in node.all_input_nodes():
                 if isinstance(node, Dist) and _input is node.at:
                     edges.append((node, _input))
+                    if isinstance(_input, VarValue):
+                        # the draw is written to the value node of the variable, so
+                        # nodes that use this node directly come after the dist, too
+                        edges.append((node, _input.inputs[0]))
                 else:
                     edges.append((_input, node))
 
